@@ -23,8 +23,21 @@ Proof.
   injection A as <-. apply R_Z_eq. exact F.
 Qed.
 
+(* ---- everything below is proved for ARBITRARY hash iteration orders of the unordered-array and flat-map back ends (uio, mio), as
+   long as they are permutations; this is what makes the hasher (feature rustc_hash) irrelevant (C16). The executed instance uses the identity. ---- *)
+Section Orders.
+Variable uio : list (Z * nat) -> list (Z * nat).
+Hypothesis uio_perm : forall m, Permutation (uio m) m.
+Variable mio : list (Z * (Z * nat)) -> list (Z * (Z * nat)).
+Hypothesis mio_perm : forall m, Permutation (mio m) m.
+Notation zid := uio.
+Notation zid_perm := uio_perm.
+Notation mid := mio.
+Notation mid_perm := mio_perm.
+Notation udiff := (DeriveInst.udiff_g uio).
+Notation uapply := (DeriveInst.uapply_g uio).
+Notation mapply := (DeriveInst.mapply_g mio).
 (* ---- unordered array with Z keys and the identity iteration order ---- *)
-Lemma zid_perm m : Permutation (zid m) m. Proof. apply Permutation_refl. Qed.
 Lemma zeqb_spec a b : Z.eqb a b = true <-> a = b. Proof. apply Z.eqb_eq. Qed.
 
 
@@ -39,12 +52,12 @@ Qed.
 Lemma perm_count (l1 l2: list Z) k : Permutation l1 l2 -> UAProofs1.count Z.eqb k l1 = UAProofs1.count Z.eqb k l2.
 Proof. intros P. unfold UAProofs1.count. induction P; cbn; try destruct (Z.eqb x k); try destruct (Z.eqb y k); cbn; congruence. Qed.
 
-Lemma HU1 p c : udiff p c = None -> Permutation p c.
+Lemma HU1_g p c : udiff p c = None -> Permutation p c.
 Proof.
   unfold udiff. intros H. pose proof (unordered_array_roundtrip Z.eqb zeqb_spec zid zid_perm p c) as T.
   destruct (UnordArr.hashcmp Z.eqb zid p c) as [[d|]|]; [discriminate| |contradiction]. apply count_perm. exact T.
 Qed.
-Lemma HU2 p c d base : udiff p c = Some d -> Permutation base p -> Permutation (uapply base d) c.
+Lemma HU2_g p c d base : udiff p c = Some d -> Permutation base p -> Permutation (uapply base d) c.
 Proof.
   unfold udiff, uapply. intros H P. destruct (UnordArr.hashcmp Z.eqb zid p c) as [[d0|]|] eqn:E; try discriminate. injection H as ->.
   apply count_perm. intros k. destruct d as [xs|cs].
@@ -61,9 +74,9 @@ Proof.
   - apply Forall_forall. intros x _. apply Z.eqb_refl.
   - unfold pairwise. induction t; constructor; [apply Z.eqb_refl|assumption].
 Qed.
-Lemma HU p c : udiff p c = None <-> Permutation p c.
+Lemma HU_g p c : udiff p c = None <-> Permutation p c.
 Proof.
-  split; [apply HU1|]. intros P. unfold udiff.
+  split; [apply HU1_g|]. intros P. unfold udiff.
   pose proof (unordered_array_roundtrip Z.eqb zeqb_spec zid zid_perm p c) as T.
   destruct (UnordArr.hashcmp Z.eqb zid p c) as [[d|]|] eqn:E; [|reflexivity|contradiction].
   exfalso. destruct (diff_present_differs Z.eqb zeqb_spec zid zid_perm p c d E) as [k Hk]. apply Hk. apply perm_count. exact P.
@@ -72,8 +85,7 @@ Qed.
 (* ---- flat map with Z keys and values, either mode, identity iteration order, canonical (sorted) map values ---- *)
 Section FlatMap.
 Variable ko : bool.
-Lemma mid_perm m : Permutation (mid m) m. Proof. apply Permutation_refl. Qed.
-Notation mdiff := (DeriveInst.mdiff ko).
+Notation mdiff := (DeriveInst.mdiff_g mio ko).
 
 Lemma lookup_get (l: list (Z * Z)) k : MFProofs1.lookup Z.eqb k l = al_get Z.eqb k l.
 Proof. induction l as [|[k0 v] l IH]; cbn; try rewrite IH; reflexivity. Qed.
@@ -82,20 +94,20 @@ Proof. intros S. apply (sorted_wf l S). Qed.
 Lemma map_eq_sorted (p c: list (Z * Z)) : sortedk p -> sortedk c -> MFProofs4.map_eq Z.eqb p c -> p = c.
 Proof. intros Sp Sc E. apply sorted_ext; assumption. Qed.   (* lookup and al_get are convertible *)
 
-Lemma HM1 p c : sortedk p -> sortedk c -> mdiff p c = None -> p = c.
+Lemma HM1_g p c : sortedk p -> sortedk c -> mdiff p c = None -> p = c.
 Proof.
   intros Sp Sc H. unfold mdiff in H. pose proof (map_flat_roundtrip Z.eqb Z.eqb zeqb_spec zeqb_spec mid mid_perm ko p c (sorted_nodup p Sp) (sorted_nodup c Sc)) as T.
   destruct (MapFlat.hashcmp Z.eqb Z.eqb mid ko p c) as [[d|]|]; [discriminate| |contradiction]. apply map_eq_sorted; assumption.
 Qed.
-Lemma HM2 p c d : sortedk p -> sortedk c -> mdiff p c = Some d -> mapply p d = c.
+Lemma HM2_g p c d : sortedk p -> sortedk c -> mdiff p c = Some d -> mapply p d = c.
 Proof.
   intros Sp Sc H. unfold mdiff in H. pose proof (map_flat_roundtrip Z.eqb Z.eqb zeqb_spec zeqb_spec mid mid_perm ko p c (sorted_nodup p Sp) (sorted_nodup c Sc)) as T.
   destruct (MapFlat.hashcmp Z.eqb Z.eqb mid ko p c) as [[d0|]|]; try discriminate. injection H as ->. destruct T as [E _].
   unfold mapply. apply sorted_ext; [apply canon_sorted|exact Sc|]. intros k. rewrite get_canon, <- !lookup_get. apply E.
 Qed.
-Lemma HM p c : sortedk p -> sortedk c -> (mdiff p c = None <-> p = c).
+Lemma HM_g p c : sortedk p -> sortedk c -> (mdiff p c = None <-> p = c).
 Proof.
-  intros Sp Sc. split; [apply HM1; assumption|]. intros ->. unfold mdiff.
+  intros Sp Sc. split; [apply HM1_g; assumption|]. intros ->. unfold mdiff.
   pose proof (map_flat_roundtrip Z.eqb Z.eqb zeqb_spec zeqb_spec mid mid_perm ko c c (sorted_nodup c Sc) (sorted_nodup c Sc)) as T.
   destruct (MapFlat.hashcmp Z.eqb Z.eqb mid ko c c) as [[d|]|] eqn:E; [|reflexivity|contradiction].
   exfalso. destruct (map_diff_facts Z.eqb Z.eqb zeqb_spec zeqb_spec mid mid_perm ko c c d (sorted_nodup c Sc) (sorted_nodup c Sc) E) as [N _]. apply N. intros k. reflexivity.
@@ -104,20 +116,37 @@ Qed.
 (* ---- the derive-level theorems with every back end instantiated: no hypothesis left but the hash order of recursive maps ---- *)
 Variable iter_order : list (Z * value) -> list (Z * value).
 Hypothesis iter_perm : forall m, Permutation (iter_order m) m.
-Definition Diff := DModel3.diff_s _ _ _ odiff udiff mdiff iter_order.
-Definition Apply := DModel3.apply _ _ _ oapply uapply mapply iter_order.
+Definition Diff_g := DModel3.diff_s _ _ _ odiff udiff mdiff iter_order.
+Definition Apply_g := DModel3.apply _ _ _ oapply uapply mapply iter_order.
 
-Theorem C01_closed : forall s a b, wt_s s a -> wt_s s b -> R_s true s a b (Apply s a (Diff s a b)).
-Proof. apply (derive_roundtrip _ _ _ odiff oapply udiff uapply mdiff mapply iter_order iter_perm HO1 HO2 HU1 HU2 HM1 HM2). Qed.
-Theorem C02_closed : forall s hist prev f, wt_s s prev -> Forall (wt_s s) hist -> wt_s s f -> Eq_s s f prev ->
+Theorem C01_closed_g : forall s a b, wt_s s a -> wt_s s b -> R_s true s a b (Apply_g s a (Diff_g s a b)).
+Proof. apply (derive_roundtrip _ _ _ odiff oapply udiff uapply mdiff mapply iter_order iter_perm HO1 HO2 HU1_g HU2_g HM1_g HM2_g). Qed.
+Theorem C02_closed_g : forall s hist prev f, wt_s s prev -> Forall (wt_s s) hist -> wt_s s f -> Eq_s s f prev ->
   Forall2 (fun f' l => Eq_s s f' l) (follow _ _ _ odiff oapply udiff uapply mdiff mapply iter_order s f prev hist) hist.
-Proof. apply (replication_tracks _ _ _ odiff oapply udiff uapply mdiff mapply iter_order iter_perm HO1 HO2 HU1 HU2 HM1 HM2). Qed.
-Theorem C04_closed : forall fs i xs ys, wt_fs fs xs -> wt_fs fs ys ->
+Proof. apply (replication_tracks _ _ _ odiff oapply udiff uapply mdiff mapply iter_order iter_perm HO1 HO2 HU1_g HU2_g HM1_g HM2_g). Qed.
+Theorem C04_closed_g : forall fs i xs ys, wt_fs fs xs -> wt_fs fs ys ->
   entries_match _ _ _ fs i xs ys (DModel3.diff_fs _ _ _ odiff udiff mdiff iter_order fs i xs ys).
-Proof. apply (change_detection_exact _ _ _ odiff udiff mdiff iter_order iter_perm HO HU HM). Qed.
-Theorem C15_closed : forall fs ops xs copy, wt_fs fs xs -> wt_fs fs copy -> Eq_fs fs copy xs -> ops_ok fs (length xs) ops ->
+Proof. apply (change_detection_exact _ _ _ odiff udiff mdiff iter_order iter_perm HO HU_g HM_g). Qed.
+Theorem C15_closed_g : forall fs ops xs copy, wt_fs fs xs -> wt_fs fs copy -> Eq_fs fs copy xs -> ops_ok fs (length xs) ops ->
   let '(final, es) := DSetters.run _ _ _ odiff udiff mdiff iter_order fs ops xs in
   Eq_fs fs (fold_left (DModel3.apply_fs _ _ _ oapply uapply mapply iter_order fs 0) es copy) final.
-Proof. apply (setters_replay _ _ _ odiff oapply udiff uapply mdiff mapply iter_order iter_perm HO1 HO2 HU1 HU2 HM1 HM2). Qed.
+Proof. apply (setters_replay _ _ _ odiff oapply udiff uapply mdiff mapply iter_order iter_perm HO1 HO2 HU1_g HU2_g HM1_g HM2_g). Qed.
 End FlatMap.
-Print Assumptions C01_closed. Print Assumptions C02_closed. Print Assumptions C04_closed. Print Assumptions C15_closed.
+End Orders.
+
+(* ---- the instance at the identity orders, under the names the property files use ---- *)
+Lemma zid_perm m : Permutation (zid m) m. Proof. apply Permutation_refl. Qed.
+Lemma mid_perm m : Permutation (mid m) m. Proof. apply Permutation_refl. Qed.
+Definition HU1 := HU1_g zid zid_perm.
+Definition HU2 := HU2_g zid zid_perm.
+Definition HU := HU_g zid zid_perm.
+Definition HM1 := HM1_g mid mid_perm.
+Definition HM2 := HM2_g mid mid_perm.
+Definition HM := HM_g mid mid_perm.
+Definition Diff := Diff_g zid mid.
+Definition Apply := Apply_g zid mid.
+Definition C01_closed := C01_closed_g zid zid_perm mid mid_perm.
+Definition C02_closed := C02_closed_g zid zid_perm mid mid_perm.
+Definition C04_closed := C04_closed_g zid zid_perm mid mid_perm.
+Definition C15_closed := C15_closed_g zid zid_perm mid mid_perm.
+Print Assumptions C01_closed_g. Print Assumptions C02_closed_g. Print Assumptions C04_closed_g. Print Assumptions C15_closed_g.
